@@ -36,7 +36,9 @@ def meta(tier, seed):
                                                                           "remove_arm(2) after the first call",
                                                                           "query, then fit again on arm 1's rows only"],
                    "policies": {"clusters": ["eg0", "ucb", "lucb"] + ([] if tier == "quick" else ["ts", "sm"]),
-                                "tree": ["eg0", "ucb"] + ([] if tier == "quick" else ["ts"])}},
+                                "tree": ["eg0", "ucb"] + ([] if tier == "quick" else ["ts"])},
+                   "n_jobs": "1; additionally 2 (joblib model, default schedule) for default trees x {eg0, ucb} and "
+                             "KMeans(2) x eg0 with n <= %d" % (3 if tier == "quick" else 4)},
         "assumptions": ["scikit-learn is trusted for cell membership (labels_, predict, apply)",
                         "queries whose two nearest centroids are within 1e-6 (relative) are skipped and counted: the "
                         "winner of such a tie is decided inside scikit-learn's kernel"],
@@ -56,6 +58,14 @@ def shards(tier, seed):
             for first in range(len(P5)):
                 out.append({"kind": "tree", "setting": name, "params": params, "ln": ln, "nmax": nmax, "first": first,
                             "seed": 141 + seed, "quick": tier == "quick"})
+    # the same question with the query batch partitioned over two jobs (joblib model, default schedule): every row
+    # must still be conditioned on its own cell whatever chunk it lands in
+    for first in range(len(P5)):
+        for ln in ["eg0", "ucb"]:
+            out.append({"kind": "tree", "setting": "default", "params": {}, "ln": ln, "nmax": 3 if tier == "quick" else 4,
+                        "first": first, "seed": 141 + seed, "quick": tier == "quick", "n_jobs": 2})
+        out.append({"kind": "clu", "setting": "c2", "k": 2, "mb": False, "ln": "eg0", "nmax": 3 if tier == "quick" else 4,
+                    "first": first, "seed": 141 + seed, "quick": tier == "quick", "n_jobs": 2})
     return out
 
 
@@ -116,7 +126,26 @@ def build_history(pts, variant, comp, ln):
     return oplist, rows, arms
 
 
+def _jobs(cfg):
+    """joblib model (default schedule) when the case asks for more than one job"""
+    if cfg.get("n_jobs", 1) > 1:
+        from .. import sched
+        return sched.model()
+    import contextlib
+    return contextlib.nullcontext()
+
+
 def judge_clusters(cfg, ln, oplist, rows, arms, acc=None):
+    with _jobs(cfg):
+        return _judge_clusters(cfg, ln, oplist, rows, arms, acc)
+
+
+def judge_tree(cfg, ln, oplist, rows, arms, acc=None):
+    with _jobs(cfg):
+        return _judge_tree(cfg, ln, oplist, rows, arms, acc)
+
+
+def _judge_clusters(cfg, ln, oplist, rows, arms, acc=None):
     try:
         mab = ops.run_history(cfg, oplist)
     except Exception:                                         # noqa: BLE001
@@ -155,7 +184,7 @@ def judge_clusters(cfg, ln, oplist, rows, arms, acc=None):
     return msgs
 
 
-def judge_tree(cfg, ln, oplist, rows, arms, acc=None):
+def _judge_tree(cfg, ln, oplist, rows, arms, acc=None):
     try:
         mab = ops.run_history(cfg, oplist)
     except Exception:                                         # noqa: BLE001
@@ -214,9 +243,11 @@ def run_shard(shard):
     ln, kind = shard["ln"], shard["kind"]
     acc = report.Acc(ID, replay, shard)
     if kind == "clu":
-        cfg = A.config(ln, ["Clusters", {"n_clusters": shard["k"], "is_minibatch": shard["mb"]}], seed=shard["seed"])
+        cfg = A.config(ln, ["Clusters", {"n_clusters": shard["k"], "is_minibatch": shard["mb"]}], seed=shard["seed"],
+                       n_jobs=shard.get("n_jobs", 1))
     else:
-        cfg = A.config(ln, ["TreeBandit", {"tree_parameters": shard["params"]}], seed=shard["seed"])
+        cfg = A.config(ln, ["TreeBandit", {"tree_parameters": shard["params"]}], seed=shard["seed"],
+                       n_jobs=shard.get("n_jobs", 1))
     judge = judge_clusters if kind == "clu" else judge_tree
     for n in range(2, shard["nmax"] + 1):
         if n == 5 and (kind == "clu" and shard["setting"] != "c2" or ln not in ("eg0", "ucb")):
